@@ -173,8 +173,24 @@ def run(P: Program, R: Report, tier: str) -> None:
                 cst = f"{m.short}: bulk kernel call receives edges grouped by (time(source), time(target)) and exactly those frames"
                 adjacent = any(isinstance(x, ast.BinOp) and isinstance(x.op, (ast.Add, ast.Sub)) and isinstance(x.right, ast.Constant) and x.right.value == 1
                                for i_ in (i1, i2) if i_ is not None for x in ast.walk(i_))
+                # groups keyed by ONE endpoint's time: the edges of a group may end (or start) in different frames
+                one_sided = False
+                if loops and isinstance(loops[-1].iter, ast.Call) and call_name(loops[-1].iter) == "items":
+                    groups_ = norm(loops[-1].iter.func.value)
+                    for fl in [x for x in ast.walk(m.node) if isinstance(x, ast.Call) and call_name(x) == "append"]:
+                        recv = fl.func.value
+                        key_ = recv.slice if isinstance(recv, ast.Subscript) and norm(recv.value) == groups_ else (
+                            recv.args[0] if isinstance(recv, ast.Call) and call_name(recv) == "setdefault" and norm(recv.func.value) == groups_ and recv.args else None)
+                        if key_ is not None:
+                            if isinstance(key_, ast.Name):
+                                key_ = single_def(m, key_.id) or key_
+                            if not isinstance(key_, ast.Tuple) and norm(key_).count("get_time(") == 1:
+                                one_sided = True
                 if ok:
                     R.ok("R09.3", m, c, cst, via="provenance")
+                elif one_sided:
+                    R.fail("R09.3", m, c, cst, "the edges are grouped by the time of ONE endpoint only: edges of one group that end in different frames are all "
+                           "compared against one frame (the others get IoU 0)")
                 elif adjacent or not (loops and isinstance(loops[-1].iter, ast.Call) and call_name(loops[-1].iter) == "items"):
                     R.fail("R09.3", m, c, cst, why)
                 else:
